@@ -8,6 +8,7 @@ import numpy as np
 from common import proto
 from common.framework import Failure, ImplError, Stream, err_kind
 from props import _sift as S
+from props import c01
 
 ID = 'C03'
 LEAN_MODULES = ['Proofs.C03']
@@ -33,6 +34,12 @@ RULE = ('classic: random signals (9 families) x imf options x caps k = 1..K+2 (K
         'ensemble / complete ensemble: seeded runs x nensembles x noise mode x caps incl. caps above the available components; '
         'second layer: first-layer caps x sift_args {None, {}, max_imfs below/equal/above the first-layer count}; '
         'mask second layer: the same x number of masks 1..6 (below/equal/above the first-layer count) x list/tuple/array x mask options. '
+        'mask_amp is a scalar or a float array with one amplitude per IMF; the argument objects (mask_amp / mask_freqs arrays) are created once per case '
+        'and shared by the run with the largest cap and all capped runs. Manual peeling is compared within 1e-9*max(1,|x|) (classic: literal unless a '
+        'stop / extrema decision of the peeled layers lies within 1e-7 of its threshold; masked: mechanism-level); prefix equality of capped runs is exact. '
+        'Not judged (skipped and tagged): time-outs, the documented convergence error of the extraction layer, mask_sift_second_layer with fewer masks than '
+        'first-layer components. Mechanism-level: third dimension of second-layer results beyond "<= requested cap", merging of ragged ensemble members, '
+        'noise-extra shape, (n,1) layout equality, caller dictionary left untouched. '
         'Non-trivial: a cap that actually truncates (k < K), a ragged ensemble, or a padded second-layer block; distinct by content hash.')
 
 IMPL_TIMEOUT = 40
@@ -49,6 +56,44 @@ def _tones(n, seed=0):
 
 def _finite(a):
     return bool(np.all(np.isfinite(np.asarray(a, dtype=float))))
+
+
+NOT_JUDGED = ('Timeout', 'EMDSiftCovergeError')     # run time is not C03's subject; the convergence error is the documented
+#                                                      answer of the extraction layer (no components are returned: C03 is vacuous)
+
+
+def _impl_error(out, what='harness-crashed'):
+    """verdict for an exception that escaped impl(): time-outs / the documented convergence error are not judged (skipped and
+    tagged); anything else that reaches this point is a problem of the harness wrapper or a raise of the library"""
+    if out['error'] in NOT_JUDGED:
+        return []
+    return [Failure('%s:%s' % (what, out['error']), out.get('msg', ''), literal=(what == 'raises'))]
+
+
+def _skip_if_not_judged(out):
+    return 'skip:' + out['error'].lower() if isinstance(out, ImplError) and out['error'] in NOT_JUDGED else None
+
+
+def _peel_tie_margin(rows, o, upto):
+    """smallest decision margin met while extracting layers 0..upto from the harness residuals: the stop rule's relative margin
+    (S.reference) and the smallest gap between neighbouring samples of every iterate relative to the signal scale (an extremum that
+    exists by a rounding error).  Exact ties of the raw input (layer 0, iterate 0) are robust and do not count."""
+    marg = 1.0
+    for k, row in enumerate(rows[:upto + 1]):
+        r = np.asarray(row[0], dtype=float)
+        scale = S.scale_of(r)
+        try:
+            ref = S.reference(r, o, extra=0)
+        except Exception:  # noqa
+            return 0.0
+        marg = min(marg, ref['margin'])
+        for j, (h, U, L) in enumerate(ref['rows']):
+            d = np.abs(np.diff(h))
+            if k == 0 and j == 0:
+                d = d[d > 0]
+            if d.size:
+                marg = min(marg, float(d.min()) / scale)
+    return marg
 
 
 # ---------------------------------------------------------------------------------------------------------
@@ -91,7 +136,7 @@ class CapPrefix(Stream):
         out = {}
         try:
             with S.time_limit(IMPL_TIMEOUT):
-                full = np.asarray(S.call_sift(x, o, case['thr'], None))
+                full = np.asarray(c01._call_sift(x, o, case['thr'], None))
         except Exception as e:  # noqa
             return {'error': err_kind(e), 'msg': str(e)[:200]}
         K0 = full.shape[1]
@@ -101,7 +146,7 @@ class CapPrefix(Stream):
         for k in self._caps(K0):
             try:
                 with S.time_limit(IMPL_TIMEOUT):
-                    c = np.asarray(S.call_sift(x, o, case['thr'], k))
+                    c = np.asarray(c01._call_sift(x, o, case['thr'], k))
                 caps[str(k)] = {'shape': list(c.shape), 'prefix_equal': bool(np.array_equal(c, full[:, :k])),
                                 'finite': _finite(c)}
             except Exception as e:  # noqa
@@ -117,13 +162,31 @@ class CapPrefix(Stream):
             out['layout_equal'] = 'raises:' + err_kind(e)
         try:
             with S.time_limit(2 * IMPL_TIMEOUT):
-                rows = S.peel(x, o, K0 + 2)
+                rows = c01._peel(x, o, K0 + 2, with_paths=False)
         except S.Timeout:
             out['peel_timeout'] = True
             return out
         out['table'] = [[S.fr_list(r), None if c is None else S.fr_list(c), f, err, None] for r, c, f, err, _ in rows]
-        out['peel_equal'] = all(rows[k][1] is not None and np.array_equal(rows[k][1], full[:, k]) for k in range(min(K0, len(rows)))) \
-            and len(rows) >= K0
+        # "component k is the single-IMF extraction applied to the input minus the first k-1 components": how that residual is rounded
+        # is not fixed by the statement, so the comparison is within 1e-9*max(1,|x|); a mismatch next to a decision at rounding
+        # distance (stop rule, an extremum created by rounding) is a near tie, not a failure
+        scale = S.scale_of(x)
+        bad = None
+        for k in range(K0):
+            if k >= len(rows) or rows[k][1] is None:
+                bad = k
+                break
+            if not (np.array_equal(rows[k][1], full[:, k]) or S.close(rows[k][1], full[:, k], scale)):
+                bad = k
+                break
+        out['peel_equal'] = bad is None
+        if bad is not None:
+            out['peel_bad_layer'] = bad
+            try:
+                with S.time_limit(IMPL_TIMEOUT):
+                    out['peel_tie_margin'] = _peel_tie_margin(rows, o, bad)
+            except Exception:  # noqa
+                out['peel_tie_margin'] = 0.0
         return out
 
     @staticmethod
@@ -147,9 +210,9 @@ class CapPrefix(Stream):
 
     def compare(self, case, out, results):
         if isinstance(out, ImplError):
-            return 'harness impl wrapper raised %s' % out['error']
+            return _skip_if_not_judged(out) or 'harness impl wrapper raised %s' % out['error']
         if 'error' in out:
-            return None          # uncapped run raises (convergence error): covered by C01 / C04
+            return 'skip:timeout' if out['error'] == 'Timeout' else None      # uncapped run raises (convergence error): covered by C01 / C04
         if 'table' not in out:
             return 'skip:peeling-timeout'
         for k, r in zip(self._caps_for_ops(out), results):
@@ -166,11 +229,9 @@ class CapPrefix(Stream):
 
     def holds(self, case, out):
         if isinstance(out, ImplError):
-            return [Failure('does-not-terminate' if out['error'] == 'Timeout' else 'harness-crashed:' + out['error'], out.get('msg', ''))]
+            return _impl_error(out)
         if 'error' in out:
-            if out['error'] == 'Timeout':
-                return [Failure('does-not-terminate', out['msg'])]
-            return [] if out['error'] == 'EMDSiftCovergeError' else [Failure('raises:' + out['error'], out['msg'])]
+            return [] if out['error'] in NOT_JUDGED else [Failure('raises:' + out['error'], out['msg'])]
         n = len(case['x'])
         K0 = out['full_shape'][1]
         fs = []
@@ -181,7 +242,8 @@ class CapPrefix(Stream):
         for k in self._caps(K0):
             c = out['caps'][str(k)]
             if 'error' in c:
-                fs.append(Failure('capped-run-raises:' + c['error'], 'max_imfs=%d' % k))
+                if c['error'] not in NOT_JUDGED:
+                    fs.append(Failure('capped-run-raises:' + c['error'], 'max_imfs=%d' % k))
                 continue
             if c['shape'][0] != n or len(c['shape']) != 2:
                 fs.append(Failure('wrong-shape', 'max_imfs=%d -> %s' % (k, c['shape'])))
@@ -193,10 +255,13 @@ class CapPrefix(Stream):
                 fs.append(Failure('capped-run-not-prefix-of-uncapped', 'max_imfs=%d' % k))
             if not c['finite']:
                 fs.append(Failure('non-finite-output', 'max_imfs=%d' % k))
-        if not out.get('peel_equal', True):
-            fs.append(Failure('manual-peeling-differs-from-sift', 'get_next_imf on x - sum(first k components) does not reproduce component k'))
-        if out['layout_equal'] is not True:
-            fs.append(Failure('layout-dependent-result', '(n,1) input: %s' % out['layout_equal']))
+        if not out.get('peel_equal', True) and out.get('peel_tie_margin', 1.0) >= S.TIE:
+            fs.append(Failure('manual-peeling-differs-from-sift', 'get_next_imf on x - sum(first k components) does not reproduce component k=%s '
+                              'within 1e-9*max(1,|x|) (smallest decision margin on the way %.3g)'
+                              % (out.get('peel_bad_layer'), out.get('peel_tie_margin', 1.0))))
+        if out['layout_equal'] is not True and out['layout_equal'] not in ('raises:Timeout', 'raises:EMDSiftCovergeError'):
+            # input layouts are C19's subject; C03 is silent: mechanism-level
+            fs.append(Failure('layout-dependent-result', '(n,1) input: %s' % out['layout_equal'], literal=False))
         seen = {}
         for f in fs:
             seen.setdefault(f.kind, f)
@@ -209,6 +274,8 @@ class CapPrefix(Stream):
             t.append('K=%s' % (K0 if K0 <= 3 else '4-6' if K0 <= 6 else '>6'))
         elif not isinstance(out, ImplError):
             t.append('uncapped-raises:' + out['error'])
+        if not isinstance(out, ImplError) and not out.get('peel_equal', True) and out.get('peel_tie_margin', 1.0) < S.TIE:
+            t.append('skip:manual-peeling-near-tie')
         return t
 
     def nontrivial(self, case, out):
@@ -225,11 +292,20 @@ class CapPrefix(Stream):
 
 # ---------------------------------------------------------------------------------------------------------
 
-def _mask_kwargs(case, cap):
-    kw = {'max_imfs': cap, 'mask_amp': case['amp'], 'mask_amp_mode': case['amp_mode'], 'nphases': case['nphases'],
-          'nprocesses': 1, 'sift_thresh': case['thr']}
-    mf = case['freqs']
-    kw['mask_freqs'] = np.array(mf) if isinstance(mf, list) else mf
+def _mask_args(case):
+    """the argument OBJECTS of one case, created once and handed to every mask_sift call of the case (the run with the largest cap,
+    the capped runs): "the first k components of the uncapped run" is a statement about runs made with the very same arguments, and
+    a caller who keeps his mask_amp / mask_freqs arrays and only varies max_imfs is the ordinary way of making them (round-3 seeded
+    change: a float mask_amp array was rescaled in place by ratio_sig, so every later call saw other amplitudes)"""
+    amp, mf = case['amp'], case['freqs']
+    return {'mask_amp': np.array(amp, dtype=float) if isinstance(amp, list) else amp,
+            'mask_freqs': np.array(mf) if isinstance(mf, list) else mf}
+
+
+def _mask_kwargs(case, cap, shared=None):
+    shared = shared or _mask_args(case)
+    kw = {'max_imfs': cap, 'mask_amp': shared['mask_amp'], 'mask_amp_mode': case['amp_mode'], 'nphases': case['nphases'],
+          'nprocesses': 1, 'sift_thresh': case['thr'], 'mask_freqs': shared['mask_freqs']}
     return kw
 
 
@@ -249,8 +325,9 @@ def _mask_peel(x, case, freqs, layers):
             sd = X.std()
         else:
             sd = imf[:, -1].std()
-        amp = case['amp'] * sd
-        c, f = emd.sift.get_next_imf_mask(r, freqs[k], amp, nphases=case['nphases'], nprocesses=1)
+        a = case['amp'][k] if isinstance(case['amp'], list) else case['amp']      # the pristine case value, not a shared array
+        amp = a * sd
+        c, f = emd.sift.get_next_imf_mask(r.copy(), freqs[k], amp, nphases=case['nphases'], nprocesses=1)
         rows.append((r[:, 0].copy(), c[:, 0].copy(), bool(f), None, None))
         imf = c if imf is None else np.concatenate((imf, c), axis=1)
         r = X - imf.sum(axis=1)[:, None]
@@ -265,7 +342,12 @@ class MaskCaps(Stream):
         x = S.fr_list(_tones(96, 1))
         return [{'x': x, 'freqs': 'zc', 'amp': 1, 'amp_mode': 'ratio_imf', 'nphases': 4, 'thr': 1e-8, 'kmax': 5},
                 {'x': x, 'freqs': [0.3, 0.1, 0.04], 'amp': 1, 'amp_mode': 'ratio_sig', 'nphases': 2, 'thr': 1e-8, 'kmax': 5},
-                {'x': x, 'freqs': 0.25, 'amp': 0.5, 'amp_mode': 'abs', 'nphases': 4, 'thr': 1e-8, 'kmax': 4}]
+                {'x': x, 'freqs': 0.25, 'amp': 0.5, 'amp_mode': 'abs', 'nphases': 4, 'thr': 1e-8, 'kmax': 4},
+                # per-IMF amplitudes as a float array shared by all runs of the case (see _mask_args); the signal's std is not 1
+                {'x': [3.0 * v for v in x], 'freqs': 'zc', 'amp': [2.0, 1.5, 1.0, 1.0, 0.5, 0.5], 'amp_mode': 'ratio_sig', 'nphases': 4,
+                 'thr': 1e-8, 'kmax': 5},
+                {'x': [3.0 * v for v in x], 'freqs': [0.3, 0.1, 0.04, 0.02], 'amp': [2.0, 1.5, 1.0, 1.0, 0.5], 'amp_mode': 'ratio_imf',
+                 'nphases': 2, 'thr': 1e-8, 'kmax': 4}]
 
     def generate(self, rng, tier):
         for i in range(160 if tier == 'thorough' else 24):
@@ -281,17 +363,24 @@ class MaskCaps(Stream):
                 m = rng.randint(1, 6)
                 f0 = rng.uniform(0.2, 0.45)
                 freqs = [round(f0 / (2 ** j), 5) for j in range(m)]
-            yield {'x': S.fr_list(x), 'freqs': freqs, 'amp': rng.choice([1, 1, 0.5, 2]),
-                   'amp_mode': rng.choice(['ratio_imf', 'ratio_sig', 'abs']), 'nphases': rng.choice([1, 2, 4, 4]),
-                   'thr': 1e-8, 'kmax': rng.choice([3, 4, 5, 6])}
+            kmax = rng.choice([3, 4, 5, 6])
+            amp = rng.choice([1, 1, 0.5, 2])
+            if rng.random() < 0.35:
+                amp = [rng.choice([0.5, 1.0, 1.5, 2.0]) for _ in range(kmax + 1)]       # one amplitude per IMF (float array)
+                if rng.random() < 0.7:
+                    x = x * rng.choice([0.2, 3.0, 25.0])                               # std(x) != 1
+            yield {'x': S.fr_list(x), 'freqs': freqs, 'amp': amp,
+                   'amp_mode': rng.choice(['ratio_imf', 'ratio_sig', 'ratio_sig', 'abs']), 'nphases': rng.choice([1, 2, 4, 4]),
+                   'thr': 1e-8, 'kmax': kmax}
 
     def impl(self, case):
         import emd
         x = np.array(case['x'], dtype=float)
         kmax = case['kmax']
         out = {}
+        shared = _mask_args(case)
         with S.time_limit(IMPL_TIMEOUT * 3):
-            full, freqs = emd.sift.mask_sift(x, ret_mask_freq=True, **_mask_kwargs(case, kmax))
+            full, freqs = emd.sift.mask_sift(x.copy(), ret_mask_freq=True, **_mask_kwargs(case, kmax, shared))
             full = np.asarray(full)
             K0 = full.shape[1]
             out['full_shape'] = list(full.shape)
@@ -300,7 +389,7 @@ class MaskCaps(Stream):
             caps = {}
             for k in sorted(set([1, 2, K0, kmax, kmax + 1]) & set(range(1, kmax + 2))):
                 try:
-                    c = np.asarray(emd.sift.mask_sift(x, **_mask_kwargs(case, k)))
+                    c = np.asarray(emd.sift.mask_sift(x.copy(), **_mask_kwargs(case, k, shared)))
                     caps[str(k)] = {'shape': list(c.shape), 'prefix_equal': bool(c.shape[1] <= K0 and np.array_equal(c, full[:, :c.shape[1]])),
                                     'finite': _finite(c)}
                 except Exception as e:  # noqa
@@ -308,7 +397,9 @@ class MaskCaps(Stream):
             out['caps'] = caps
             rows = _mask_peel(x, case, list(np.asarray(freqs, dtype=float)), K0 + 1)
             out['table'] = [[S.fr_list(r), S.fr_list(c), f, None, None] for r, c, f, _, _ in rows]
-            out['peel_equal'] = len(rows) >= K0 and all(np.array_equal(rows[k][1], full[:, k]) for k in range(K0))
+            scale = S.scale_of(x)
+            out['peel_equal'] = len(rows) >= K0 and all(np.array_equal(rows[k][1], full[:, k]) or S.close(rows[k][1], full[:, k], scale)
+                                                        for k in range(K0))
         return out
 
     def _op(self, case, out, k):
@@ -331,7 +422,7 @@ class MaskCaps(Stream):
 
     def compare(self, case, out, results):
         if isinstance(out, ImplError):
-            return None
+            return _skip_if_not_judged(out)
         for k, r in zip(self._ks(case, out), results):
             want = out['full_shape'][1] if k == case['kmax'] else out['caps'][str(k)].get('shape', [0, -1])[1]
             if not r.ok:
@@ -348,7 +439,7 @@ class MaskCaps(Stream):
 
     def holds(self, case, out):
         if isinstance(out, ImplError):
-            return [Failure('does-not-terminate' if out['error'] == 'Timeout' else 'raises:' + out['error'], out.get('msg', ''))]
+            return _impl_error(out, 'raises')
         n = len(case['x'])
         K0 = out['full_shape'][1]
         lim = case['kmax'] if out['nfreqs'] is None else min(case['kmax'], out['nfreqs'])
@@ -356,19 +447,22 @@ class MaskCaps(Stream):
         if out['full_shape'][0] != n:
             fs.append(Failure('wrong-shape', str(out['full_shape'])))
         if K0 > lim:
-            fs.append(Failure('more-components-than-cap', 'max_imfs=%d, %s user frequencies -> %d components' % (case['kmax'], out['nfreqs'], K0)))
+            # literal against the REQUESTED cap; "not more than the user supplied masks" is the code's own reconciliation
+            fs.append(Failure('more-components-than-cap', 'max_imfs=%d, %s user frequencies -> %d components' % (case['kmax'], out['nfreqs'], K0),
+                              literal=K0 > case['kmax']))
         if not out['finite']:
             fs.append(Failure('non-finite-output', ''))
         for ks, c in out['caps'].items():
             k = int(ks)
             if 'error' in c:
-                fs.append(Failure('capped-run-raises:' + c['error'], 'max_imfs=%d' % k))
+                if c['error'] not in NOT_JUDGED:
+                    fs.append(Failure('capped-run-raises:' + c['error'], 'max_imfs=%d' % k))
                 continue
             limk = k if out['nfreqs'] is None else min(k, out['nfreqs'])
             if c['shape'][0] != n:
                 fs.append(Failure('wrong-shape', 'max_imfs=%d -> %s' % (k, c['shape'])))
             if c['shape'][1] > limk:
-                fs.append(Failure('more-components-than-cap', 'max_imfs=%d -> %d' % (k, c['shape'][1])))
+                fs.append(Failure('more-components-than-cap', 'max_imfs=%d -> %d' % (k, c['shape'][1]), literal=c['shape'][1] > k))
             elif k <= case['kmax'] and c['shape'][1] != min(k, K0):
                 fs.append(Failure('capped-run-wrong-count', 'max_imfs=%d -> %d, max_imfs=%d -> %d' % (k, c['shape'][1], case['kmax'], K0)))
             elif k <= case['kmax'] and not c['prefix_equal']:
@@ -376,7 +470,10 @@ class MaskCaps(Stream):
             if not c['finite']:
                 fs.append(Failure('non-finite-output', 'max_imfs=%d' % k))
         if not out['peel_equal']:
-            fs.append(Failure('manual-peeling-differs-from-mask-sift', ''))
+            # within 1e-9*max(1,|x|); the harness re-derives the mask amplitude (std rule) and cannot measure the decision margins of
+            # the masked extractions here (C02's replay does): mechanism-level; the literal half is the prefix equality above
+            fs.append(Failure('manual-peeling-differs-from-mask-sift', 'get_next_imf_mask on x - sum(first k components) with the documented '
+                              'mask frequency / amplitude does not reproduce component k within tolerance', literal=False))
         seen = {}
         for f in fs:
             seen.setdefault(f.kind, f)
@@ -384,7 +481,8 @@ class MaskCaps(Stream):
 
     def tags(self, case, out):
         t = ['freqs=' + ('list' if isinstance(case['freqs'], list) else 'float' if isinstance(case['freqs'], float) else case['freqs']),
-             'amp_mode=' + case['amp_mode'], 'nphases=%d' % case['nphases']]
+             'amp_mode=' + case['amp_mode'], 'nphases=%d' % case['nphases'],
+             'mask_amp=' + ('float-array(shared)' if isinstance(case['amp'], list) else 'scalar')]
         if not isinstance(out, ImplError):
             t.append('K=%d' % out['full_shape'][1])
             if out['nfreqs'] is not None and out['nfreqs'] < case['kmax']:
@@ -473,11 +571,13 @@ class EnsembleShape(Stream):
 
     def compare(self, case, out, results):
         if isinstance(out, ImplError) or not results:
-            return None
+            return _skip_if_not_judged(out) if isinstance(out, ImplError) else None
         r = results[0]
         if not r.ok:
             return 'model: ' + r.raw[:100]
         if 'error' in out:
+            if out['error'] in NOT_JUDGED:
+                return 'skip:' + out['error'].lower()
             if case['mode'] == 'flip' and out['error'] == 'ValueError':
                 return None      # member construction failed before the averaging (instance check reports it)
             return 'model: %s components; impl raised %s (member widths %s)' % (r.args['ncols'], out['error'], out['widths'])
@@ -487,9 +587,11 @@ class EnsembleShape(Stream):
 
     def holds(self, case, out):
         if isinstance(out, ImplError):
-            return [Failure('does-not-terminate' if out['error'] == 'Timeout' else 'harness-crashed:' + out['error'], out.get('msg', ''))]
+            return _impl_error(out)
         ragged = len(set(out['widths'])) > 1 or (case['cap'] is not None and out['widths'] and max(out['widths']) < case['cap'])
         if 'error' in out:
+            if out['error'] in NOT_JUDGED:
+                return []
             w = out['widths']
             if case['mode'] == 'flip' and out['error'] == 'ValueError' and 'broadcast' in out.get('msg', ''):
                 # the + and - noise runs of one member differ in width: `imf += sift(...)` in _sift_with_noise
@@ -503,7 +605,10 @@ class EnsembleShape(Stream):
         elif case['cap'] is not None and out['shape'][1] > case['cap']:
             fs.append(Failure('more-components-than-cap', 'max_imfs=%d -> %d' % (case['cap'], out['shape'][1])))
         elif out['widths'] and out['shape'][1] < max(out['widths']):
-            fs.append(Failure('member-components-dropped', 'member widths %s but %d components returned' % (out['widths'], out['shape'][1])))
+            # how ragged members are merged is not fixed by the statement (truncating to the common width also respects the cap), and
+            # the widths are observed by wrapping the module attribute emd.sift.sift: mechanism-level
+            fs.append(Failure('member-components-dropped', 'member widths %s but %d components returned' % (out['widths'], out['shape'][1]),
+                              literal=False))
         if not out.get('finite', True):
             fs.append(Failure('non-finite-output', ''))
         return fs
@@ -564,7 +669,7 @@ class CeemdShape(Stream):
 
     def compare(self, case, out, results):
         if isinstance(out, ImplError):
-            return None
+            return _skip_if_not_judged(out)
         r = results[0]
         if not r.ok:
             return 'model: ' + r.raw[:100]
@@ -577,7 +682,7 @@ class CeemdShape(Stream):
 
     def holds(self, case, out):
         if isinstance(out, ImplError):
-            return [Failure('does-not-terminate' if out['error'] == 'Timeout' else 'raises:' + out['error'], out.get('msg', ''))]
+            return _impl_error(out, 'raises')
         fs = []
         n = len(case['x'])
         if len(out['shape']) != 2 or out['shape'][0] != n or out['shape'][1] < 1:
@@ -585,7 +690,8 @@ class CeemdShape(Stream):
         elif case['cap'] is not None and out['shape'][1] > case['cap']:
             fs.append(Failure('more-components-than-cap', 'max_imfs=%d -> %d components' % (case['cap'], out['shape'][1])))
         if out['noise_shape'] != [n, case['nens']]:
-            fs.append(Failure('wrong-noise-shape', str(out['noise_shape'])))
+            # the docstring documents no shape for the noise extra: mechanism-level
+            fs.append(Failure('wrong-noise-shape', str(out['noise_shape']), literal=False))
         if not out['finite']:
             fs.append(Failure('non-finite-output', ''))
         return fs
@@ -600,6 +706,24 @@ class CeemdShape(Stream):
 
     def nontrivial(self, case, out):
         return not isinstance(out, ImplError) and case['cap'] is not None and out['shape'][1] >= case['cap']
+
+
+def _second_layer_shape(out, n, cap, how, block_kind, block_msg):
+    """[samples x first-layer components x second-layer components]; never more second-layer components than the REQUESTED cap.
+    That the third dimension is exactly the cap (and the number of first-layer components when no cap was requested) is the
+    current code's layout, not the statement's: mechanism-level."""
+    fs = []
+    sh = out['shape']
+    if len(sh) != 3 or sh[0] != n or sh[1] != out['n1']:
+        return [Failure('wrong-shape:' + how, 'expected [%d, %d, <= cap], got %s' % (n, out['n1'], sh))]
+    if cap is not None and sh[2] > cap:
+        fs.append(Failure('more-components-than-cap', 'second layer max_imfs=%d -> third dimension %d' % (cap, sh[2])))
+    elif sh != [n, out['n1'], out['cap2']]:
+        fs.append(Failure('wrong-shape:' + how, 'expected [%d, %d, %d], got %s' % (n, out['n1'], out['cap2'], sh), literal=False))
+    if out.get('blocks') is not None and not all(out['blocks']):
+        # with no cap requested the harness's inner sifts are capped at the first-layer count (the code's default): mechanism-level then
+        fs.append(Failure(block_kind + how, block_msg % out['blocks'], literal=cap is not None))
+    return fs
 
 
 class SecondLayer(Stream):
@@ -657,11 +781,13 @@ class SecondLayer(Stream):
 
     def compare(self, case, out, results):
         if isinstance(out, ImplError):
-            return None
+            return _skip_if_not_judged(out)
         r = results[0]
         if not r.ok:
             return 'model: ' + r.raw[:100]
         if 'error' in out:
+            if out['error'] in NOT_JUDGED:
+                return 'skip:' + out['error'].lower()
             return 'model shape [n, %s, %s]; impl raised %s' % (r.args['d1'], r.args['d2'], out['error'])
         if out['shape'][1:] != [int(r.args['d1']), int(r.args['d2'])]:
             return 'model shape [n, %s, %s]; impl %s' % (r.args['d1'], r.args['d2'], out['shape'])
@@ -672,18 +798,14 @@ class SecondLayer(Stream):
 
     def holds(self, case, out):
         if isinstance(out, ImplError):
-            return [Failure('does-not-terminate' if out['error'] == 'Timeout' else 'harness-crashed:' + out['error'], out.get('msg', ''))]
+            return _impl_error(out)
         cap = (case['args'] or {}).get('max_imfs')
         how = 'sift_args=None' if case['args'] is None else 'uncapped' if cap is None else \
             'cap-below-first-layer' if cap < out['n1'] else 'cap-above-first-layer' if cap > out['n1'] else 'cap-equals-first-layer'
         if 'error' in out:
-            return [Failure('second-layer-raises:%s:%s' % (out['error'], how), out['msg'])]
-        fs = []
-        n = len(case['x'])
-        if out['shape'] != [n, out['n1'], out['cap2']]:
-            fs.append(Failure('wrong-shape:' + how, 'expected [%d, %d, %d], got %s' % (n, out['n1'], out['cap2'], out['shape'])))
-        elif not all(out['blocks']):
-            fs.append(Failure('second-layer-block-differs:' + how, 'blocks equal to sift(IA[:, i]) zero padded: %s' % out['blocks']))
+            return [] if out['error'] in NOT_JUDGED else [Failure('second-layer-raises:%s:%s' % (out['error'], how), out['msg'])]
+        fs = _second_layer_shape(out, len(case['x']), cap, how, 'second-layer-block-differs:',
+                                 'blocks equal to sift(IA[:, i]) zero padded: %s')
         if not out.get('finite', True):
             fs.append(Failure('non-finite-output', ''))
         return fs
@@ -784,7 +906,9 @@ class MaskSecondLayer(Stream):
 
     def compare(self, case, out, results):
         if isinstance(out, ImplError):
-            return None
+            return _skip_if_not_judged(out)
+        if out.get('error') in NOT_JUDGED:
+            return 'skip:' + out['error'].lower()
         r = results[0]
         if r.status == 'err':
             # the model raises IndexError exactly when the masks run out before the first-layer columns do
@@ -804,30 +928,27 @@ class MaskSecondLayer(Stream):
 
     def holds(self, case, out):
         if isinstance(out, ImplError):
-            return [Failure('does-not-terminate' if out['error'] == 'Timeout' else 'harness-crashed:' + out['error'], out.get('msg', ''))]
+            return _impl_error(out)
         cap = (case['args'] or {}).get('max_imfs')
         how = 'sift_args=None' if case['args'] is None else 'uncapped' if cap is None else \
             'cap-below-first-layer' if cap < out['n1'] else 'cap-above-first-layer' if cap > out['n1'] else 'cap-equals-first-layer'
         fs = []
         if out['args_mutated']:
-            fs.append(Failure('sift-args-mutated', 'the caller\'s sift_args dict was modified'))
+            # C03 says nothing about the caller's dictionary: mechanism-level
+            fs.append(Failure('sift-args-mutated', 'the caller\'s sift_args dict was modified', literal=False))
         if out['nfreqs'] < out['n1']:
-            # fewer masks than first-layer components: nothing is documented to be returned; the code raises IndexError
-            if 'error' not in out:
-                fs.append(Failure('mask-second-layer-returns-without-masks', 'n1=%d nfreqs=%d shape=%s' % (out['n1'], out['nfreqs'], out['shape'])))
+            # fewer masks than first-layer components: undocumented input outside the quantifier; the code raises IndexError, a version
+            # that returns zero blocks / skips those columns contradicts no word of C03: either outcome is accepted (tagged)
             return fs
         if 'error' in out:
-            return fs + [Failure('mask-second-layer-raises:%s:%s' % (out['error'], how), out['msg'])]
-        n = len(case['x'])
-        if out['shape'] != [n, out['n1'], out['cap2']]:
-            fs.append(Failure('wrong-shape:' + how, 'expected [%d, %d, %d], got %s' % (n, out['n1'], out['cap2'], out['shape'])))
-        elif not all(out['blocks']):
-            fs.append(Failure('mask-second-layer-block-differs:' + how,
-                              'blocks equal to mask_sift(IA[:, i], mask_freqs[i:]) zero padded: %s' % out['blocks']))
+            return fs + ([] if out['error'] in NOT_JUDGED else [Failure('mask-second-layer-raises:%s:%s' % (out['error'], how), out['msg'])])
+        fs += _second_layer_shape(out, len(case['x']), cap, how, 'mask-second-layer-block-differs:',
+                                  'blocks equal to mask_sift(IA[:, i], mask_freqs[i:]) zero padded: %s')
         for i, w in enumerate(out['widths']):
             if w > min(out['cap2'], out['nfreqs'] - i):
+                # literal against the requested cap only; "not more than the masks left" is the code's own reconciliation
                 fs.append(Failure('more-components-than-cap', 'column %d: %d components, max_imfs=%d, %d masks left'
-                                  % (i, w, out['cap2'], out['nfreqs'] - i)))
+                                  % (i, w, out['cap2'], out['nfreqs'] - i), literal=cap is not None and w > cap))
                 break
         if not out.get('finite', True):
             fs.append(Failure('non-finite-output', ''))
